@@ -41,6 +41,8 @@ def h_explain(f, N):
         expl = s.explainer.explanations
         r0 = out[0][1]
         reported = {v: sorted(positions(expl, v, N)) for v in vs}
+        if refsem.TWIN == 'explain':
+            reported = {v: r[1:] for v, r in reported.items()}      # vacuity twin: claim sufficiency of a smaller set - must be refuted
         env.observe('reported', [[len(reported[v])] for v in vs])
         triggered = A.lt(r0, 0)
         st = sat(A, f, w, N)
@@ -96,4 +98,7 @@ def obligations(tier, rng):
             f = refsem.gen_formula(rng, 3, ops, [(0, 1), (1, 2)], ('x', 'y'))
             out.append(ob('C20', 'explain', 'F3/%d/%s' % (i, text(atoms_subst(f))), f=atoms_subst(f), N=3, max_paths=40000, wall=900))
     seen = set()
-    return [o for o in out if not (o['oid'] in seen or seen.add(o['oid']))]
+    res_ = [o for o in out if not (o['oid'] in seen or seen.add(o['oid']))]
+    from .. import core as _core
+    res_ = res_ + _core.make_twins(res_, [('F1/not((x) >= (0.5))/N=2', 'explain'), ('F1/historically((x) >= (0.5))/N=2', 'explain')]) + _core.make_forkmode(res_, [])
+    return res_
